@@ -321,6 +321,85 @@ func xmlRemHeap(g *Gen) string {
 	return h
 }
 
+// xml decoder: ghost position = number of tokens delivered so far (by successful Token calls). The tokens are those of
+// one fixed sequence: the i-th successful Token call returns xml_tok(i), an uninterpreted, heap-independent function.
+func xmlPosHeap(g *Gen) string {
+	h := "G_ghost_xmlpos"
+	g.TE.noteHeapRaw(h, SInt)
+	return h
+}
+
+func xmlTokUF(g *Gen) string   { return g.UF("xml_tok", []string{SInt}, SIface) }
+func xmlCharsUF(g *Gen) string { return g.UF("xml_chars", []string{SInt}, SStr) }
+
+const xmlStreamAssumption = "(*xml.Decoder).Token delivers the tokens of one fixed finite sequence in order: the i-th successful call returns xmlTok(i) (a function of the position only) and advances the position xmlPos() by one, a failing call leaves the position unchanged; xmlChars(i) is string(t) of a CharData token t at the moment it is delivered; Token calls on different decoders are not interleaved (the repository creates one decoder, in parseDocument)"
+const xmlDepthNote = "xmlDepth(i) = (#StartElement - #EndElement) among the tokens [0,i) (definition by the recurrence xmlDepth(i+1) = xmlDepth(i) + 1 | -1 | 0, axiom emitted in the VCs that mention xmlDepth)"
+const xmlNestingAssumption = "(*xml.Decoder).Token returns properly nested and matched start/end tokens (documented guarantee of encoding/xml): an EndElement at position e has a matching StartElement at xmlOpen(e) < e with the same Name, xmlDepth(xmlOpen(e)) == xmlDepth(e+1), and every position in between lies strictly deeper (axiom emitted in the VCs that mention xmlOpen)"
+
+// xmlPkgOf finds the types package encoding/xml among the imports of the loaded program.
+func xmlPkgOf(g *Gen) *types.Package {
+	for _, p := range g.Prog.AllPackages() {
+		if p.Pkg.Path() == "encoding/xml" {
+			return p.Pkg
+		}
+	}
+	return nil
+}
+
+func xmlTokTag(g *Gen, name string) int {
+	return g.TE.Tag(xmlPkgOf(g).Scope().Lookup(name).Type())
+}
+
+// xmlDepthUF declares xml_depth / xml_open and registers their (keyed) axioms: they are emitted only in the VCs
+// that mention xml_depth (a prelude axiom in every VC of the reader costs proofs elsewhere).
+func xmlDepthUF(g *Gen) string {
+	_, known := g.ufDecl["xml_depth"]
+	d := g.UF("xml_depth", []string{SInt}, SInt)
+	if known {
+		return d
+	}
+	tok := xmlTokUF(g)
+	open := g.UF("xml_open", []string{SInt}, SInt)
+	st, en := xmlTokTag(g, "StartElement"), xmlTokTag(g, "EndElement")
+	seT := xmlPkgOf(g).Scope().Lookup("StartElement").Type()
+	eeT := xmlPkgOf(g).Scope().Lookup("EndElement").Type()
+	nameOf := func(x string, t types.Type) (string, string) {
+		p := g.ifacePayload(x, t)
+		s := g.TE.SortOf(t)
+		ns := g.TE.SortOf(xmlPkgOf(g).Scope().Lookup("Name").Type())
+		return fmt.Sprintf("(%s_Space (%s_Name %s))", ns, s, p), fmt.Sprintf("(%s_Local (%s_Name %s))", ns, s, p)
+	}
+	g.keyedAxiom("xml_depth", xmlDepthNote, fmt.Sprintf(
+		"(assert (forall ((i Int)) (! (= (%s (+ i 1)) (+ (%s i) (ite (= (itag (%s i)) %d) 1 (ite (= (itag (%s i)) %d) (- 1) 0)))) :pattern ((%s i)))))",
+		d, d, tok, st, tok, en, tok))
+	sSp, sLo := nameOf(fmt.Sprintf("(%s (%s e))", tok, open), seT)
+	eSp, eLo := nameOf(fmt.Sprintf("(%s e)", tok), eeT)
+	g.keyedAxiom("xml_open", xmlNestingAssumption, fmt.Sprintf(
+		"(assert (forall ((e Int)) (! (=> (and (>= e 0) (= (itag (%s e)) %d)) (and (<= 0 (%s e)) (< (%s e) e) (= (itag (%s (%s e))) %d) (= %s %s) (= %s %s) (= (%s (%s e)) (%s (+ e 1))))) :pattern ((%s e)))))",
+		tok, en, open, open, tok, open, st, sLo, eLo, sSp, eSp, d, open, d, tok))
+	g.keyedAxiom("xml_open", xmlNestingAssumption, fmt.Sprintf(
+		"(assert (forall ((e Int) (k Int)) (! (=> (and (>= e 0) (= (itag (%s e)) %d) (< (%s e) k) (<= k e)) (> (%s k) (%s (%s e)))) :pattern ((%s e) (%s k)))))",
+		tok, en, open, d, d, open, tok, d))
+	return d
+}
+
+// keyedAxiom registers an axiom that is emitted only in VCs that mention the symbol key; note is reported as an
+// assumption of the functions whose VCs get it.
+func (g *Gen) keyedAxiom(key, note, ax string) {
+	for _, a := range g.axioms {
+		if a == ax {
+			return
+		}
+	}
+	if g.axiomKey == nil {
+		g.axiomKey = map[string]string{}
+		g.axiomNote = map[string]string{}
+	}
+	g.axiomKey[ax] = key
+	g.axiomNote[ax] = note
+	g.axioms = append(g.axioms, ax)
+}
+
 func extNewDecoder(f *frame, cm *ssa.CallCommon, args []Val, st *State, name string, resT types.Type, pos token.Pos) Val {
 	h := xmlRemHeap(f.c.g)
 	n := f.c.declare("xmlrem", SInt)
@@ -336,23 +415,41 @@ func extToken(f *frame, cm *ssa.CallCommon, args []Val, st *State, name string, 
 	g := c.g
 	h := xmlRemHeap(g)
 	rem := st.Heap(h)
+	ph := xmlPosHeap(g)
+	p := st.Heap(ph)
 	r := f.freshResult(resT, st, name)
 	tok, err := r.Tuple[0], r.Tuple[1]
 	// token kinds
 	var tags []string
-	tokT := cm.Signature().Results().At(0).Type()
-	_ = tokT
 	xmlPkg := cm.StaticCallee().Pkg.Pkg
 	for _, n := range []string{"StartElement", "EndElement", "CharData", "Comment", "ProcInst", "Directive"} {
 		t := xmlPkg.Scope().Lookup(n).Type()
 		tags = append(tags, fmt.Sprintf("(= (itag %s) %d)", tok.T, g.TE.Tag(t)))
 	}
+	ok := fmt.Sprintf("(= (itag %s) 0)", err.T)
 	c.assume(st, fmt.Sprintf("(>= %s 0)", rem))
-	c.assume(st, fmt.Sprintf("(ite (= (itag %s) 0) (and (> %s 0) (or %s)) (= (itag %s) 0))", err.T, rem, strings.Join(tags, " "), tok.T))
-	nr := c.define("xmlrem", SInt, fmt.Sprintf("(ite (= (itag %s) 0) (- %s 1) %s)", err.T, rem, rem))
+	c.assume(st, fmt.Sprintf("(>= %s 0)", p))
+	c.assume(st, fmt.Sprintf("(ite %s (and (> %s 0) (or %s)) (= (itag %s) 0))", ok, rem, strings.Join(tags, " "), tok.T))
+	// the token delivered is the one at the current position of the fixed sequence
+	c.assume(st, fmt.Sprintf("(=> %s (= %s (%s %s)))", ok, tok.T, xmlTokUF(g), p))
+	// character data: its text, as string(t) would give it now, is xmlChars(position)
+	cdT := xmlPkg.Scope().Lookup("CharData").Type()
+	if sl, isSl := cdT.Underlying().(*types.Slice); isSl {
+		bh := st.Heap(g.TE.CellHeap(sl.Elem()))
+		c.assume(st, fmt.Sprintf("(=> (and %s (= (itag %s) %d)) (= (%s (islice %s) %s) (%s %s)))", ok, tok.T, g.TE.Tag(cdT), strOfBytesUF(g, sl.Elem()), tok.T, bh, xmlCharsUF(g), p))
+	}
+	nr := c.define("xmlrem", SInt, fmt.Sprintf("(ite %s (- %s 1) %s)", ok, rem, rem))
 	st.heaps[h] = nr
+	st.heaps[ph] = c.define("xmlpos", SInt, fmt.Sprintf("(ite %s (+ %s 1) %s)", ok, p, p))
 	c.assumed["(*xml.Decoder).Token: total; on success returns one of the six token kinds and consumes one of finitely many remaining tokens (ghost counter); on error the token is nil"] = true
+	c.assumed[xmlStreamAssumption] = true
 	return r
+}
+
+// strOfBytesUF: string(b) as a function of the slice value and the current content of the byte cells.
+func strOfBytesUF(g *Gen, elem types.Type) string {
+	ch := g.TE.CellHeap(elem)
+	return g.UF("str_of_bytes_"+ch, []string{SSlice, g.TE.heapSort[ch]}, SStr)
 }
 
 
